@@ -24,6 +24,7 @@ def c10(tier):
             "integers are unbounded (Z): the property allows integer reasoning to assume no overflow; the differential oracle keeps unsigned operands away from wrap-around",
             "float64 is modelled as NaN | +-Inf | rational: ordering and NaN behaviour are exact, rounding is not modelled (every model witness is replayed on compiled Go by the oracle)",
             "opaque calls are deterministic functions of their arguments and of the history of earlier calls; they do not panic",
+            "the model evaluates operands strictly left to right; the Go spec leaves the order between a panicking index/division and function calls of the same expression open, so the differential oracle treats two panicking runs as equal whatever calls preceded the panic",
             "go/printer is modelled for single-line expressions of the fragment (Ident, BasicLit, Paren, Unary, Binary, Call, Index)",
         ],
         trusted=["converter go/ast+go/types -> Model_Expr terms (harness/internal/exprgen/conv.go); typeof of every converted root is re-checked in Coq",
